@@ -111,6 +111,8 @@ class World:
         self.last_state: dict = {}
         self.last_hist: dict = {}
         self.watch_hist = bool(self.scn.get('watch_hist'))
+        self.no_watch = bool(self.scn.get('no_watch'))
+        self.rejected: list = []
         self.phase = 'prog'
         self.extra: dict = {}
         self._in_watch = False
@@ -136,7 +138,7 @@ class World:
         return self.excs.get(id(err)) or type(err).__name__
 
     def watch(self):
-        if self._in_watch:
+        if self._in_watch or self.no_watch:
             return
         self._in_watch = True
         try:
@@ -208,6 +210,10 @@ class World:
                         await self._await(who, e)
             elif k == 'redisp':
                 self._redisp(who, op, local)
+            elif k == 'burst':  # ('burst', bus, key, K): K fire-and-forget dispatches in one synchronous stretch
+                self._burst(who, op, local, ctxn)
+            elif k == 'reoffer':  # dispatch again every event whose dispatch was rejected so far
+                self._reoffer(op[1])
             elif k == 'raise':
                 ex = EXC[op[1]](f'boom {who}')
                 self.excs[id(ex)] = f'{op[1]}@{who}'
@@ -230,6 +236,15 @@ class World:
                 self.rec('stop-end', who, op[1], t)
             elif k == 'mark':
                 self.rec('mark', who, op[1])
+            elif k == 'result':  # ('result', evkey, raise_if_any): call the accessor and record what it did
+                e = local.get(op[1]) or self.events.get(op[1])
+                try:
+                    val = await e.event_result(raise_if_any=op[2], raise_if_none=False)
+                    self.rec('accessor', who, e.name, op[2], 'value', repr(val)[:40])
+                except asyncio.CancelledError:
+                    raise
+                except BaseException as ex:
+                    self.rec('accessor', who, e.name, op[2], 'raised', self.exc_name(ex))
             else:
                 raise RuntimeError(f'unknown op {op}')
         return None
@@ -243,6 +258,8 @@ class World:
                 self._disp(who, op, local, ctxn)
             elif k == 'redisp':
                 self._redisp(who, op, local)
+            elif k == 'burst':
+                self._burst(who, op, local, ctxn)
             elif k == 'raise':
                 ex = EXC[op[1]](f'boom {who}')
                 self.excs[id(ex)] = f'{op[1]}@{who}'
@@ -273,10 +290,27 @@ class World:
         try:
             self.buses[bus].dispatch(e)
         except Exception:
+            self.rejected.append(e)
             return None
         finally:
             VIA.reset(tok)
         return e
+
+    def _burst(self, who, op, local, ctxn):
+        for i in range(op[3]):
+            self._disp(who, ('disp', op[1], f'{op[2]}{i + 1}', 'ff'), local, ctxn)
+
+    def _reoffer(self, bus):
+        again, self.rejected = self.rejected, []
+        tok = VIA.set('prog')
+        try:
+            for e in again:
+                try:
+                    self.buses[bus].dispatch(e)
+                except Exception:
+                    self.rejected.append(e)
+        finally:
+            VIA.reset(tok)
 
     def _redisp(self, who, op, local):
         e = local.get(op[2]) or self.events.get(op[2])
